@@ -68,6 +68,11 @@ pub enum MarkerKind {
     Restricted,
     /// a restricted marker whose lifecycle status is not Active (Finalized): still a restricted marker
     RestrictedFinalized,
+    /// a restricted marker with every field the contract has no business looking at set to an unusual
+    /// value (required attributes, fixed supply, forced transfer, no governance control, access grants)
+    RestrictedGated,
+    /// a coin marker with the same unusual values and a non-Active status: not a restricted marker
+    CoinOdd,
     /// a marker of unspecified type (0): not a restricted marker
     Unspecified,
     /// the module answers, but with no marker in the response
@@ -82,6 +87,8 @@ impl MarkerKind {
             MarkerKind::Coin => "coin",
             MarkerKind::Restricted => "restricted",
             MarkerKind::RestrictedFinalized => "restricted-finalized",
+            MarkerKind::RestrictedGated => "restricted-gated",
+            MarkerKind::CoinOdd => "coin-odd",
             MarkerKind::Unspecified => "unspecified-type",
             MarkerKind::EmptyResponse => "empty-response",
             MarkerKind::Garbage => "garbage",
@@ -92,6 +99,8 @@ impl MarkerKind {
             "coin" => MarkerKind::Coin,
             "restricted" => MarkerKind::Restricted,
             "restricted-finalized" => MarkerKind::RestrictedFinalized,
+            "restricted-gated" => MarkerKind::RestrictedGated,
+            "coin-odd" => MarkerKind::CoinOdd,
             "unspecified-type" => MarkerKind::Unspecified,
             "empty-response" => MarkerKind::EmptyResponse,
             "garbage" => MarkerKind::Garbage,
@@ -104,6 +113,8 @@ impl MarkerKind {
             MarkerKind::Coin => 'c',
             MarkerKind::Restricted => 'R',
             MarkerKind::RestrictedFinalized => 'F',
+            MarkerKind::RestrictedGated => 'A',
+            MarkerKind::CoinOdd => 'o',
             MarkerKind::Unspecified => 'u',
             MarkerKind::EmptyResponse => 'e',
             MarkerKind::Garbage => 'g',
@@ -148,7 +159,8 @@ impl Querier for ChainQ {
                         // (provwasm's `Any` cannot serialise an unknown payload, so this is answered like a
                         // module error)
                         MarkerKind::Garbage => SystemResult::Ok(ContractResult::Err("unexpected account type".into())),
-                        MarkerKind::Coin | MarkerKind::Restricted | MarkerKind::RestrictedFinalized | MarkerKind::Unspecified => {
+                        MarkerKind::Coin | MarkerKind::Restricted | MarkerKind::RestrictedFinalized | MarkerKind::RestrictedGated | MarkerKind::CoinOdd | MarkerKind::Unspecified => {
+                            let odd = matches!(kind, MarkerKind::RestrictedGated | MarkerKind::CoinOdd);
                             let m = MarkerAccount {
                                 base_account: Some(BaseAccount {
                                     address: format!("marker_{}", req.id),
@@ -156,16 +168,16 @@ impl Querier for ChainQ {
                                     account_number: 10,
                                     sequence: 0,
                                 }),
-                                manager: "".into(),
+                                manager: if odd { "manager".into() } else { "".into() },
                                 access_control: vec![],
-                                status: if kind == MarkerKind::RestrictedFinalized { 2 } else { 3 },
+                                status: if kind == MarkerKind::RestrictedFinalized || kind == MarkerKind::CoinOdd { 2 } else { 3 },
                                 denom: req.id.clone(),
-                                supply: "1000".into(),
-                                marker_type: match kind { MarkerKind::Coin => 1, MarkerKind::Unspecified => 0, _ => 2 },
-                                supply_fixed: false,
-                                allow_governance_control: true,
-                                allow_forced_transfer: false,
-                                required_attributes: vec![],
+                                supply: if odd { "0".into() } else { "1000".into() },
+                                marker_type: match kind { MarkerKind::Coin | MarkerKind::CoinOdd => 1, MarkerKind::Unspecified => 0, _ => 2 },
+                                supply_fixed: odd,
+                                allow_governance_control: !odd,
+                                allow_forced_transfer: odd,
+                                required_attributes: if odd { vec!["kyc.passed".into(), "acc".into()] } else { vec![] },
                             };
                             let resp = QueryMarkerResponse {
                                 marker: Some(Any {
